@@ -17,6 +17,8 @@ CASES += [
     # a chain walker in the library that pairs every offer with the root accepted just before it:
     # zip(roots, roots[1:]) - the property holds; zip(it, it) verifies every second link only
     Case("walker-overlapping-pairs", "keep", [("authentication", "\n\ndef verify_delegation(", _WALKER % "zip(roots, roots[1:])")], None),
+    Case("walker-cursor", "keep", [("authentication", "\n\ndef verify_delegation(", "\n\ndef verify_root_chain(trusted_root, offered_roots):\n    current = trusted_root\n    for offered in offered_roots:\n        verify_root(current, offered)\n        current = offered\n    return current\n\ndef verify_delegation(")], None),
+    Case("walker-cursor-never-advanced", "break", [("authentication", "\n\ndef verify_delegation(", "\n\ndef verify_root_chain(trusted_root, offered_roots):\n    current = trusted_root\n    for offered in offered_roots:\n        verify_root(current, offered)\n        last = offered\n    return last\n\ndef verify_delegation(")], "S5"),
     Case("walker-disjoint-pairs", "break", [("authentication", "\n\ndef verify_delegation(", "\n\ndef _two_at_a_time(items):\n    it = iter(items)\n    return zip(it, it)" + _WALKER % "_two_at_a_time(roots)")], "S5"),
 ]
 MIN_APPLIED = 20
